@@ -245,11 +245,14 @@ def main(argv):
     ap.add_argument("--keep", action="store_true")
     ap.add_argument("--list", action="store_true")
     ap.add_argument("--replay", default=None)
+    ap.add_argument("--compile", default=None, metavar="VARIANT", help="developer aid: overlay + cargo kani --only-codegen, print compiler errors")
     a = ap.parse_args(argv)
     if a.list:
         for h in meta.scan():
             print("%-46s %-22s %-8s %-13s t=%-5d %s" % (h.fn, ",".join(h.props), h.tier, h.variant, h.timeout, h.role))
         return 0
+    if a.compile:
+        return compile_only(a.compile)
     if a.replay:
         p = a.replay
         for f in ("failed_checks.json", "native_outcome.json", "NOTE.txt", "playback_test.rs", "model.json"):
@@ -494,3 +497,21 @@ def conclude(R, prop, tier, seed, hs, smt_obls, smt_out, wall, partial):
     if inconclusive:
         return 2
     return 0
+
+
+def compile_only(variant):
+    root = os.path.join(os.environ.get("VERIF_SCRATCH", "/var/tmp"), "statime-verif.dev")
+    os.makedirs(root, exist_ok=True)
+    repo, vh = overlay.make_variant(root, variant)
+    hs = meta.scan()
+    cmd = ["cargo", "kani", "-p", "statime", "--only-codegen", "--target-dir", os.path.join(root, variant, "tgt"),
+           "--harness", "no_such_harness_xyz", "-Z", "stubbing"]
+    p = subprocess.run(cmd, cwd=repo, env=kani.ENV, stdout=subprocess.PIPE, stderr=subprocess.STDOUT, text=True)
+    out = p.stdout
+    out = re.sub(r"warning: use of an unstable feature.*?\n\n", "", out, flags=re.S)
+    errs = re.findall(r"^(error.*?)(?=^(?:error|warning)|\Z)", out, re.S | re.M)
+    if errs:
+        print("".join(errs)[:12000])
+    else:
+        print(out[-1500:])
+    return 0 if p.returncode == 0 else 1
